@@ -153,6 +153,11 @@ func byteSeq(v ssa.Value) (parts []ssa.Value, ok bool) {
 		return []ssa.Value{x}, true
 	case *ssa.Phi:
 		return nil, false
+	case *ssa.Slice:
+		if n, ok := knownLen(x); ok && n == 0 {
+			return nil, true // make([]byte, 0)
+		}
+		return []ssa.Value{x}, true
 	case *ssa.UnOp:
 		if x.Op == token.MUL {
 			if a, isA := x.X.(*ssa.Alloc); isA {
